@@ -238,6 +238,14 @@ def run_c14_frames(tier, seed, out):
     st = hv_resumable(HV_CORE, args, n)
     chunked_validate(out, "C14", "TraceSock", tp, args + ["--runs", str(n)], 60000)
     log("  %d socket scenarios with injected undecodable frames validated (%d restarts after panics)" % (n, st["restarts"]))
+    # the same for the DNS layer: datagrams for the server's port (and forged "replies" to a client's port) whose
+    # payload is not a DNS message, between the lookups of real clients; judged by TraceDns.tla
+    n2 = 60 if tier == "quick" else 1500
+    tp2 = os.path.join(workdir("fn-C14"), "dns-attack.ndjson")
+    args2 = ["dns-drive", "--seed", str(seed), "--attack", "--out", tp2]
+    st2 = hv_resumable(HV_CORE, args2, n2)
+    chunked_validate(out, "C14", "TraceDns", tp2, args2 + ["--runs", str(n2)], 60000)
+    log("  %d DNS scenarios with undecodable datagrams validated (%d restarts after panics)" % (n2, st2["restarts"]))
 
 
 RUNNERS = {"C02": run_c02, "C13": run_c13, "C16": run_c16, "C20": run_c20, "C04": run_c04, "C05": run_c05, "C06": run_c06}
